@@ -15,7 +15,7 @@ open Spec (A AMod)
 
 theorem evt_upd (s : State) (u : Nat) (f : Module → Module) (hu : ∀ x, (f x).uid = x.uid) (hc : ∀ x, (f x).closed = x.closed) :
     Evt s (s.upd u f) := by
-  refine evt_same rfl (fun v ⟨m, hm, hcl⟩ => ?_)
+  refine evt_same rfl (fun v ⟨m, hm, hcl⟩ => ?_) (uids_upd s u f hu)
   refine ⟨if m.uid == u then f m else m, by rw [find_upd s u v f hu, hm]; rfl, ?_⟩
   split
   · rw [hc]; exact hcl
@@ -125,8 +125,36 @@ theorem readOne_evt (cfg : Cfg) (s : State) (rd : Read) (hc : s.crashed = none) 
       rw [hro]; exact (removeTop_nest cfg _ rd.uid).evt.trans (logTop_nest cfg lvl _).evt
     · rw [readOne_whole cfg s rd hc m hm (by simpa using hb)]
       exact process_evt cfg _ rd.uid rd.h
-  obtain ⟨E, hE, hno, _⟩ := key
+  obtain ⟨⟨E, hE, hno, _⟩, _⟩ := key
   exact ⟨E, by rw [hE, rdState_out]; simp, hno⟩
+
+/-- reading frames never adds a table entry -/
+theorem readOne_usub (cfg : Cfg) (s : State) (rd : Read) :
+    ((readOne cfg s rd).mods.map (·.uid)).Sublist (s.mods.map (·.uid)) := by
+  by_cases hc : s.crashed = none
+  · cases hm : s.find rd.uid with
+    | none =>
+      have : readOne cfg s rd = s := by unfold readOne; simp [hc, hm]
+      rw [this]; exact List.Sublist.refl _
+    | some m =>
+      have key : Evt (rdState cfg s rd) (readOne cfg s rd) := by
+        by_cases hb : Spec.brokenRd cfg rd = true
+        · obtain ⟨lvl, hro⟩ := readOne_broken cfg s rd hc m hm hb
+          rw [hro]; exact (removeTop_nest cfg _ rd.uid).evt.trans (logTop_nest cfg lvl _).evt
+        · rw [readOne_whole cfg s rd hc m hm (by simpa using hb)]
+          exact process_evt cfg _ rd.uid rd.h
+      exact key.2
+  · have : readOne cfg s rd = s := by
+      unfold readOne
+      cases hcr : s.crashed with
+      | none => exact absurd hcr hc
+      | some w => simp
+    rw [this]; exact List.Sublist.refl _
+
+theorem readAll_usub (cfg : Cfg) : ∀ (reads : List Read) (s : State),
+    ((readAll cfg reads s).mods.map (·.uid)).Sublist (s.mods.map (·.uid))
+  | [], s => List.Sublist.refl _
+  | rd :: rest, s => (readAll_usub cfg rest (readOne cfg s rd)).trans (readOne_usub cfg s rd)
 
 theorem readOne_skip (cfg : Cfg) (s : State) (rd : Read) (hm : s.find rd.uid = none) : readOne cfg s rd = s := by
   unfold readOne; split
@@ -210,7 +238,7 @@ theorem readAll_cons (cfg : Cfg) (rd : Read) (rest : List Read) (s : State) :
     readAll cfg (rd :: rest) s = readAll cfg rest (readOne cfg s rd) := rfl
 
 theorem quietTo_refl {cfg : Cfg} {s : State} (t : Top cfg s) (j : J s) : QuietTo cfg s s :=
-  ⟨Nest.refl s, t, j, Quiet.refl _ s, fun _ => Quiet.refl _ s⟩
+  ⟨Nest.refl s, t, j, Quiet.refl _ s, fun _ => Quiet.refl _ s, infoTo_refl _ _ s⟩
 
 section loop
 variable {cfg : Cfg} (ok : CfgOK cfg) (hfuel : cfg.fuel = 0) (hperm : OrdPerm cfg)
@@ -729,11 +757,13 @@ theorem round_ok {a : A} {s : State} (inv : Inv cfg a s) (r : Round) (hwf : Roun
   generalize readsS s r = reads at *
   generalize preS cfg s r = sP at *
   generalize preA a r = a3 at *
+  have hdP : (sP.mods.map (·.uid)).Nodup := hsP.minv.distinct
   have tR := top_readAll ok hfuel reads tP
   have jR : J (readAll cfg reads sP) := readAll_J cfg reads jP
   have q : QuietTo cfg (readAll cfg reads sP) (ticks cfg (readAll cfg reads sP)) :=
     ⟨ticks_nest cfg _, top_ticks ok hfuel tR, ticks_J cfg jR, qa_ticks cfg _,
-      fun k => quiet_of_QE (ticks_QE cfg (tag_cp cfg k) (ctl_cp k) _)⟩
+      fun k => quiet_of_QE (ticks_QE cfg (tag_cp cfg k) (ctl_cp k) _),
+      ticks_info cfg _ ((readAll_usub cfg reads sP).nodup hdP)⟩
   obtain ⟨E1, hE1⟩ := readAll_out ok hfuel reads sP tP
   obtain ⟨E2, hE2, _, _⟩ := q.nest.ext
   have hE : (ticks cfg (readAll cfg reads sP)).out = sP.out ++ (E1 ++ E2) := by rw [hE2, hE1, List.append_assoc]
